@@ -178,4 +178,104 @@ def evalIsList (d : TraitDesc) : IsListExpr → Option Bool
     | some true => evalIsList d b
     | r => r
 
+/-! ### The weak-reference callback `_sync_trait_listener_deleted(ref, info)`
+
+`info` is one object's `__sync_trait__`: the lock table under `""` (its entries are
+trait names) and one partner table per synchronised trait (entries `(id, alias)`,
+here: the partner `Pair`).  The two loops run over snapshots (`list(….items())`);
+the body touches only the table it is visiting (`del dic[name]`, `del info[key]`),
+so a table is interpreted in isolation.  `value[0]` on an entry of the lock table
+(`None`) is a `TypeError`; `del dic[name]` of a key of the snapshot that the body
+removed before is not modelled (a dict snapshot holds each key once). -/
+
+inductive CbCond where
+  /-- `key != ""` -/
+  | keyNotLockTable
+  /-- `ref is value[0]` -/
+  | refIsEntry
+  /-- `len(dic) == 0` -/
+  | tableEmpty
+  deriving DecidableEq, Repr
+
+inductive CbStmt where
+  | skip
+  | seq (a b : CbStmt)
+  | ite (c : CbCond) (t e : CbStmt)
+  /-- `for key, dic in list(info.items()):` -/
+  | forTables (body : CbStmt)
+  /-- `for name, value in list(dic.items()):` -/
+  | forEntries (body : CbStmt)
+  /-- `del dic[name]` -/
+  | delEntry
+  /-- `del info[key]` -/
+  | delTable
+  deriving DecidableEq, Repr
+
+/-- The table being visited: its entries, and whether `del info[key]` removed it. -/
+structure CbTable where
+  entries : List Pair
+  deleted : Bool := false
+
+/-- One object's `__sync_trait__`. -/
+structure Info where
+  lock : Option (List Name)
+  tabs : List (Name × List Pair)
+
+def evalCb (dead : Nat) (isLock : Bool) (cur : Option Pair) (t : CbTable) : CbCond → Except Exc Bool
+  | .keyNotLockTable => .ok (!isLock)
+  | .refIsEntry =>
+    match cur with
+    | none => .error .other
+    | some e => if isLock then .error .typeError else .ok (decide (e.1 = dead))
+  | .tableEmpty => .ok t.entries.isEmpty
+
+def interpCbT (dead : Nat) (isLock : Bool) : CbStmt → Option Pair → CbTable → Except Exc CbTable
+  | .skip, _, t => .ok t
+  | .seq a b, cur, t =>
+    match interpCbT dead isLock a cur t with
+    | .ok t1 => interpCbT dead isLock b cur t1
+    | .error e => .error e
+  | .ite c x y, cur, t =>
+    match evalCb dead isLock cur t c with
+    | .error e => .error e
+    | .ok true => interpCbT dead isLock x cur t
+    | .ok false => interpCbT dead isLock y cur t
+  | .forEntries body, _, t =>
+    t.entries.foldl (fun acc e =>
+      match acc with
+      | .ok t1 => interpCbT dead isLock body (some e) t1
+      | .error x => .error x) (.ok t)
+  | .delEntry, some e, t => .ok { t with entries := t.entries.filter (· ≠ e) }
+  | .delEntry, none, _ => .error .other
+  | .delTable, _, t => .ok { t with deleted := true }
+  | .forTables _, _, _ => .error .other
+
+def runTabs (dead : Nat) (body : CbStmt) : List (Name × List Pair) → Except Exc (List (Name × List Pair))
+  | [] => .ok []
+  | (n, es) :: rest =>
+    match interpCbT dead false body none { entries := es } with
+    | .error e => .error e
+    | .ok t =>
+      match runTabs dead body rest with
+      | .error e => .error e
+      | .ok r => .ok (if t.deleted then r else (n, t.entries) :: r)
+
+/-- The callback on one object's tables, `ref` being the weak reference to object `dead`. -/
+def interpCb (dead : Nat) : CbStmt → Info → Except Exc Info
+  | .forTables body, i =>
+    let lockR : Except Exc (Option (List Name)) :=
+      match i.lock with
+      | none => .ok none
+      | some ns =>
+        match interpCbT dead true body none { entries := ns.map (fun n => (0, n)) } with
+        | .error e => .error e
+        | .ok t => .ok (if t.deleted then none else some (t.entries.map (·.2)))
+    match lockR with
+    | .error e => .error e
+    | .ok l =>
+      match runTabs dead body i.tabs with
+      | .error e => .error e
+      | .ok ts => .ok { lock := l, tabs := ts }
+  | _, _ => .error .other
+
 end TraitsVerif.Model.PyLLink
